@@ -78,6 +78,14 @@ def cases(ctx):
                        "lib": "eems" if idx % 5 == 0 else "probe", "order": rng.randrange(10 ** 6), "multiline": idx % 3 == 0, "dupe": idx % 4 == 1,
                        "sorted_order": idx % 3 == 0 and idx % 2 == 0, "api": idx % 5 == 2, "noout": idx % 7 == 3, "late": idx % 11 == 4}
             idx += 1
+    # the smallest programs there are: one command that refers to itself, and nothing else in the program
+    k1 = 0
+    for real in ("direct", "list", "nested"):
+        for api in (False, True):
+            for dupe in (False, True):
+                if ctx.mine(k1):
+                    yield {"n": 1, "edges": [[0, 0]], "real": real, "lib": "probe", "order": 1 + k1 * 15, "multiline": k1 % 2 == 0, "dupe": dupe, "sorted_order": False, "api": api, "noout": k1 % 5 == 4, "late": False}
+                k1 += 1
     for i in range(ctx.n(2, 10)):
         yield {"kind": "v2self", "variant": i * ctx.nshards + ctx.shard}
     for i in range(ctx.n(300, 20000)):
@@ -363,6 +371,10 @@ def run_case(ctx, case):
             return
     if name == "RecursiveModelStructure":
         ctx.count("recursive_model_errors_seen")
+        if isinstance(err, (RecursionError, MemoryError)):
+            # what a caller (and this monitor) recognises a run out of stack by: the report of a circular model must not be one
+            ctx.fail("recursive-model-error-is-itself-a-stack-overflow-error", {"mro": [c.__name__ for c in type(err).__mro__][:6], "text": text})
+            return
         if case["order"] % 3 == 0:
             # asked again, the same program is rejected again (nothing was "resolved" by the failed run)
             ctx.count("second_runs_of_rejected_programs")
